@@ -6,7 +6,7 @@
     /\ (forall x, wfd c x = true -> fits c x = true -> esize c x = len (enc c x))
     /\ (forall bs x r r', dec c bs = Value x r -> fits c x = true -> dec c (enc c x ++ r') = Value x r'). *)
 From Coq Require Import ZArith List.
-From VB Require Import Gen.Consts Serde.StreamDefs Serde.CodecSpec Serde.StreamProofs Serde.EntityDefs Serde.Theorems Serde.FitsProofs Serde.StoredDefs Serde.StoredTheorems Serde.FitsMerkle Serde.Refuted Serde.Ids.
+From VB Require Import Gen.Consts Serde.StreamDefs Serde.CodecSpec Serde.StreamProofs Serde.EntityDefs Serde.Theorems Serde.FitsProofs Serde.StoredDefs Serde.StoredTheorems Serde.FitsMerkle Serde.Refuted Serde.Ids Serde.Memo.
 Local Open Scope Z_scope.
 
 Theorem C11_single_be_int64 : c11_ok c_single_be64.
@@ -179,3 +179,18 @@ Theorem C11_ids_of_content : forall addr_norm sha256 sha256d progpow,
                vtb_id sha256 sha256d progpow a = vtb_id sha256 sha256d progpow b).
 Proof. exact ids_of_content. Qed.
 Print Assumptions C11_ids_of_content.
+
+(** memoised hashes (hash_ of VbkBlock / BtcBlock): any sequence of setters and getHash calls, starting from a fresh
+    (decoded or constructed) object, answers hash(toRaw(current content)) — stated for every field type, raw encoding
+    and hash function, hence in particular for [enc c_vbkblock_raw] / [enc c_btcblock_raw]. *)
+Theorem C11_id_memo_transparent : forall (A : Type) (raw : A -> list byte) (hash : list byte -> list byte) ops m,
+  inv A raw hash m -> List.Forall (fun p => fst p = hash (raw (snd p))) (run A raw hash m ops).
+Proof. exact memo_transparent. Qed.
+Print Assumptions C11_id_memo_transparent.
+
+Theorem C11_id_memo_VbkBlock : forall progpow ops1 ops2 (x1 x2 : VbkBlock) h1 h2 c1 c2,
+  List.In (h1, c1) (run VbkBlock (enc c_vbkblock_raw) progpow (fresh VbkBlock x1) ops1) ->
+  List.In (h2, c2) (run VbkBlock (enc c_vbkblock_raw) progpow (fresh VbkBlock x2) ops2) ->
+  enc c_vbkblock_raw c1 = enc c_vbkblock_raw c2 -> h1 = h2.
+Proof. exact (fun progpow => memo_hash_of_content VbkBlock (enc c_vbkblock_raw) progpow). Qed.
+Print Assumptions C11_id_memo_VbkBlock.
